@@ -1183,7 +1183,7 @@ static StringKind getStringKind(Token *tok) {
 
 // Concatenate adjacent string literals into a single string literal
 // as per the C spec.
-static void join_adjacent_string_literals(Token *tok) {
+void join_adjacent_string_literals(Token *tok) {
   // First pass: If regular string literals are adjacent to wide
   // string literals, regular string literals are converted to a wide
   // type before concatenation. In this pass, we do the conversion.
@@ -1252,6 +1252,5 @@ Token *preprocess(Token *tok) {
   if (cond_incl)
     error_tok(cond_incl->tok, "unterminated conditional directive");
   convert_pp_tokens(tok);
-  join_adjacent_string_literals(tok);
   return tok;
 }
